@@ -335,7 +335,10 @@ pub fn run(s: &ScnT, ctx: &mut RunCtx, prefix: &'static str) -> RunOutput {
                     let mut svc = base.clone();
                     Box::new(move |id: u32, _key: u32| {
                         if let Some(Ok(())) = drive(std::future::poll_fn(|cx| svc.poll_ready(cx)), 50) {
-                            let _ = drive(svc.call(Req { id, key: 0 }), 400);
+                            let f = svc.call(Req { id, key: 0 });
+                            // a call exists from here on, whenever its future is first polled
+                            world::note("t_created", id as i64, 0);
+                            let _ = drive(f, 400);
                         }
                     })
                 });
@@ -522,7 +525,11 @@ pub fn run(s: &ScnT, ctx: &mut RunCtx, prefix: &'static str) -> RunOutput {
             for (k, (s0, to)) in tr.iter().enumerate() {
                 let s1 = tr.get(k + 1).map(|x| x.0).unwrap_or(u64::MAX);
                 let inside: Vec<_> = calls.iter().filter(|c| c.start_seq > *s0 && c.start_seq < s1).collect();
-                if *to == 1 && !inside.is_empty() {
+                // "new" calls: created after the breaker was observed open (a call that existed
+                // before may, in an implementation that admits at call() time, still go through)
+                let created_after = |req: u32| notes(&log, "t_created").find(|(_, a, _)| *a == req as i64).map(|(r, _, _)| r.seq > *s0).unwrap_or(true);
+                let inside_new: Vec<_> = inside.iter().filter(|c| created_after(c.req)).collect();
+                if *to == 1 && !inside_new.is_empty() {
                     push("C03.no_inner_while_open", "threads", format!("{} inner calls (requests {:?}) started after the breaker was observed open and before it left that state", inside.len(), inside.iter().map(|c| c.req).collect::<Vec<_>>()));
                 }
                 if *to == 2 {
